@@ -6,8 +6,10 @@ import (
 	"crypto/sha1"
 	"fmt"
 	"os"
+	"os/signal"
 	"path/filepath"
 	"strings"
+	"syscall"
 	"time"
 
 	"github.com/xelaj/errs"
@@ -296,6 +298,80 @@ func histClass(h []op) string {
 
 // ---- (c) ----------------------------------------------------------------------------------------
 
+// writeCrashes cuts the real Store short at every byte: the file-size limit of the process (RLIMIT_FSIZE) is
+// lowered to k around the call, so the operating system itself stops the write after k bytes, as a full disk or
+// a crash would. What a later Load sees depends on how Store writes (truncate first, write in place, write a
+// temporary file and rename); whichever it is, Load must report an error or one of the two sessions involved -
+// the one stored before or the one being stored - never a mixture of them.
+func writeCrashes(run *vr.Run, dir string, sessions []*session.Session) {
+	var lim syscall.Rlimit
+	if err := syscall.Getrlimit(syscall.RLIMIT_FSIZE, &lim); err != nil {
+		run.Set("write_crash_points", "not run: "+err.Error())
+		return
+	}
+	signal.Ignore(syscall.SIGXFSZ)
+	defer signal.Reset(syscall.SIGXFSZ)
+	// pairs old -> new: same encoded length (only the salt differs: the common case), shorter, longer, no old file
+	saltOnly := *s1
+	saltOnly.Salt = s1.Salt ^ 0x00ff00ff00ff00ff
+	type pair struct {
+		name     string
+		old, new *session.Session
+	}
+	pairs := []pair{{"no-old-file", nil, s1}, {"same-length-salt-differs", s1, &saltOnly}, {"same-length-salt-differs-back", &saltOnly, s1},
+		{"old-longer", sessions[3], sessions[4]}, {"old-shorter", sessions[4], sessions[3]}, {"other-session", s1, s2}}
+	n := 0
+	for _, pr := range pairs {
+		path := filepath.Join(dir, "w-"+pr.name+".json")
+		probe := filepath.Join(dir, "w-probe.json")
+		session.NewFromFile(probe).Store(pr.new)
+		full, _ := os.ReadFile(probe)
+		for k := 0; k < len(full); k++ {
+			os.Remove(path)
+			if pr.old != nil {
+				if err := session.NewFromFile(path).Store(pr.old); err != nil {
+					run.Violation("write-crash|store-error", err.Error(), nil)
+					return
+				}
+			}
+			id := fmt.Sprintf("write-crash %s cut=%d/%d", pr.name, k, len(full))
+			rep := map[string]any{"part": "write-crash", "pair": pr.name, "cut": k}
+			low := syscall.Rlimit{Cur: uint64(k), Max: lim.Max}
+			if err := syscall.Setrlimit(syscall.RLIMIT_FSIZE, &low); err != nil {
+				run.Set("write_crash_points", "not run: "+err.Error())
+				return
+			}
+			var serr error
+			p, pm, fr := vr.Try(func() { serr = session.NewFromFile(path).Store(pr.new) })
+			syscall.Setrlimit(syscall.RLIMIT_FSIZE, &lim)
+			_ = serr // Store may or may not notice
+			n++
+			run.Eval(id, true)
+			if p {
+				run.Violation("write-crash|store-panics|"+vr.MsgClass(pm)+"|"+fr, id+": "+pm, rep)
+				continue
+			}
+			var got *session.Session
+			var err error
+			if p, pm, fr := vr.Try(func() { got, err = session.NewFromFile(path).Load() }); p {
+				run.Violation("write-crash|load-panics|"+vr.MsgClass(pm)+"|"+fr, id+": "+pm, rep)
+				continue
+			}
+			if err == nil && !sameSession(got, pr.new) && (pr.old == nil || !sameSession(got, pr.old)) {
+				run.Violation("write-crash|different-session|"+pr.name, fmt.Sprintf("%s: after a Store that the system cut short, Load returns without error a session that was never stored (salt %#x; before: %v, being stored: %#x)", id, uint64(got.Salt), saltOf(pr.old), uint64(pr.new.Salt)), rep)
+			}
+		}
+	}
+	run.Set("write_crash_points", n)
+}
+
+func saltOf(s *session.Session) string {
+	if s == nil {
+		return "no file"
+	}
+	return fmt.Sprintf("%#x", uint64(s.Salt))
+}
+
 func crashPoints(run *vr.Run) {
 	dir := filepath.Join(scratch, "crash")
 	os.MkdirAll(dir, 0o755)
@@ -335,6 +411,7 @@ func crashPoints(run *vr.Run) {
 			}
 		}
 	}
+	writeCrashes(run, dir, sessions)
 	// a missing file is 'not found'
 	_, err := session.NewFromFile(filepath.Join(dir, "does-not-exist.json")).Load()
 	run.Eval("missing file", true)
